@@ -30,7 +30,7 @@ PLANS = {
                      J('spawn', [16], 1, thorough_only=True), J('spawn', [2, 4], 1, 'nosteal', thorough_only=True),
                      J('spawn', [2, 4], 1, 'cbsteal', thorough_only=True), J('spawn', [2, 4], 1, 'randsteal', thorough_only=True), S('joinrace', [2, 4], 1), D('spawn', [2, 4], 'JOIN_,CO_,SPAWN_,POOL_,RUN_,SCHED_')]},
     'C02': {'jobs': [J('park', W124, 4), J('park', [2], 1, 'asan'), S('parkrace', [2, 4], 2), D('park', [1, 2], 'PARK_,CANCEL_,YIELD_,THREADPARK_')]},
-    'C05': {'jobs': [J('mutex', W124, 2), J('mutexc', W124, 2), J('mutexc', [2, 4], 1, 'asan'), S('hsmutex', [2, 4], 2), S('lockrace', [2, 4], 2), D('mutex', [1, 2], 'MUTEX_,SYNCBLOCKER_,PARK_'), D('mutexc', [2], 'MUTEX_,SYNCBLOCKER_,CANCEL_')]},
+    'C05': {'jobs': [J('mutex', W124, 2), J('mutexc', W124, 2), J('relock', [1, 2], 1), J('cvc', [2], 1), J('mutexc', [2, 4], 1, 'asan'), S('hsmutex', [2, 4], 2), S('lockrace', [2, 4], 2), D('mutex', [1, 2], 'MUTEX_,SYNCBLOCKER_,PARK_'), D('mutexc', [2], 'MUTEX_,SYNCBLOCKER_,CANCEL_')]},
     'C06': {'jobs': [J('chan', W124, 4), J('chan', [2], 2, 'asan'), S('chanrace', [1, 2, 4], 2), D('chan', [1, 2], 'CH_,SEM_,SYNCBLOCKER_')]},
     'C07': {'jobs': [J('dis', W124, 3), J('disrx', W124, 1), J('dis', [2], 1, 'asan'), S('disrace', W124, 2), D('dis', [1, 2], 'CH_,SEM_')]},
     'C08': {'jobs': [J('tmr', W124, 3), J('tmrmix', W124, 1), J('tmr', [2, 4], 1, 'asan'), S('tmrrace', W124, 2), D('tmr', [1, 2], 'TT_,TL_,TIMER_,SLEEP_,LIST_,PARK_SUB')]},
